@@ -82,3 +82,53 @@ reg("C23", "tsx",
     "to the depth reported per configuration (3 quick, 4-6 thorough). One open known finding (ILVT + write granularity).",
     "explicit-state BFS of a miter circuit (implementation vs. Amaranth's own memory), depth-bounded for the XOR/ILVT memories",
     note=E1_NOTE + " amaranth.lib.memory.Memory is trusted as the ideal memory; XOR/ILVT configurations are depth-bounded, not complete.")
+
+ENGINES.append({"name": "dsl", "path": "/verif/vlib/dsl.py",
+                "kind_free_text": "bounded-exhaustive enumeration of Transactron designs of a small grammar (vlib/families.py), each "
+                "built with the real library, explored by tsx over all register states x all input valuations, and compared with a "
+                "reference interpreter of the design language written from the property statements (vlib/dsl.py, vlib/e2.py)",
+                "serves_properties": []})
+E2_NOTE = ("Trusts Amaranth's pysim, the reference interpreter vlib/dsl.py (call-site activity, static conflict relation, "
+           "well-formedness computed from syntax) and is bounded to the design families listed in the evidence; only the scheduler's "
+           "choice of running transactions is taken from the circuit.")
+
+reg("C01", "dsl", "Every design of the flat/chain/ctrl/nest families (2-3 transactions, 2-4 methods, every exclusive/nonexclusive "
+    "assignment, calls plain / enable_call / If / If-Else / Elif / Switch / FSM / parallel Ifs, bodies defined inside alternatives and "
+    "in separate modules) under both schedulers, all register states x all input valuations: <=1 active call site per exclusive "
+    "method and no two statically conflicting transactions running.",
+    "bounded-exhaustive design enumeration + explicit-state exploration of each elaborated design against a reference interpreter",
+    note=E2_NOTE)
+reg("C02", "dsl", "Every assignment of add_conflict(U/L/R)/schedule_before/none to every pair of 2-3 (4 thorough) bodies, on "
+    "transactions and on methods, plus same-transaction and nonexclusive-mid shapes, both schedulers, all valuations: related bodies "
+    "never both run. One open known finding (same transaction calling both ends, undefined priority).",
+    "bounded-exhaustive design enumeration + explicit-state exploration against a reference interpreter", note=E2_NOTE)
+reg("C03", "dsl", "All families incl. validate_arguments and nesting, both schedulers, all states x valuations: run(T) implies the "
+    "reference 'fully enabled' predicate; the ready signals are compared with the reference.",
+    "bounded-exhaustive design enumeration + explicit-state exploration against a reference interpreter", note=E2_NOTE)
+reg("C04", "dsl", "All families incl. provide() aliases and nested bodies, both schedulers: observed Method.run equals 'some call "
+    "site active' in both directions in every state and valuation; nested bodies never run without their parent.",
+    "bounded-exhaustive design enumeration + explicit-state exploration against a reference interpreter", note=E2_NOTE)
+reg("C05", "dsl", "Designs with 1-bit arguments/results: data_in of a running exclusive method equals the argument of its single "
+    "active site, nonexclusive methods see the OR-combiner over exactly the active sites, callers see the method output, also "
+    "through aliases; all valuations.",
+    "bounded-exhaustive design enumeration + explicit-state exploration against a reference interpreter", note=E2_NOTE)
+reg("C06", "dsl", "One assignment per domain (comb/sync/av_comb/top_comb) at every block position of nested bodies and If/Switch/"
+    "FSM blocks; BFS over the witness registers and FSM states with all valuations; each witness compared with its defining "
+    "formula (run and conditions / conditions only / always).",
+    "bounded-exhaustive design enumeration + explicit-state exploration against a reference interpreter", note=E2_NOTE)
+reg("C07", "dsl", "All families under the eager scheduler: a fully enabled transaction that does not run has a running transaction "
+    "that conflicts with it according to the reference conflict relation computed from syntax (so spurious conflict edges are "
+    "detected as wasted cycles).",
+    "bounded-exhaustive design enumeration + explicit-state exploration against a reference interpreter", note=E2_NOTE)
+reg("C08", "dsl", "Relation families with 2-3 (4 thorough) bodies: for every prioritised pair with both sides fully enabled the "
+    "lower side runs only if the higher is blocked by another running conflicting transaction.",
+    "bounded-exhaustive design enumeration + explicit-state exploration against a reference interpreter", note=E2_NOTE)
+reg("C10", "dsl", "Every accepted well-formed design of all families, a dedicated Forwarder/Pipe-style family (ready reads run of an "
+    "earlier-scheduled body while the callers conflict) and every library-component harness is passed through Amaranth's netlist "
+    "builder; no CombinationalCycle.",
+    "bounded-exhaustive design enumeration, each design decided by Amaranth's bit-precise netlist cycle check",
+    note=E2_NOTE + " check_comb_cycles of amaranth.hdl._ir is the definition of a combinational cycle.")
+reg("C11", "dsl", "Every design of all families plus deliberately ill-formed ones: the library's accept/reject decision equals the "
+    "reference well-formedness predicate computed from syntax (any exception = rejection).",
+    "bounded-exhaustive design enumeration, elaboration verdict compared with a reference well-formedness predicate",
+    note=E2_NOTE)
